@@ -84,6 +84,26 @@ def check_shape(part, normals, energies, case, key, scale_test=False):
     nb = (np.abs(slack) < 1e-6 * scale).sum(axis=1)
     if (nb < 3).any():
         part.fail("vertex-not-on-3-facets:%s" % key, "%d vertex/vertices lie on fewer than three facets" % int((nb < 3).sum()), case)
+    # facet membership lists: every vertex listed for facet i lies on plane i, and every vertex on plane i that bounds a
+    # facet of non-zero area is listed there
+    try:
+        F = w.wulff_facets
+        if len(F) != len(normals):
+            part.fail("facet-lists:%s" % key, "%d facet lists for %d facets" % (len(F), len(normals)), case)
+        else:
+            for i, lst in enumerate(F):
+                lst = list(lst)
+                if lst and np.abs(V[lst] @ np.asarray(normals)[i] - energies[i]).max() > 1e-6 * scale:
+                    part.fail("facet-membership:%s" % key, "facet %d lists a vertex that does not lie on its plane" % i, case)
+                    break
+                on_ref = ref_v[np.abs(ref_v @ np.asarray(normals)[i] - energies[i]) < 1e-7 * scale]
+                if len(on_ref) >= 3 and len(lst):
+                    listed = halfspace.dedupe(V[lst], 1e-6 * scale)
+                    if len(listed) != len(on_ref):
+                        part.fail("facet-vertices:%s" % key, "facet %d lists %d distinct vertices, the half-space intersection has %d on that plane" % (i, len(listed), len(on_ref)), case)
+                        break
+    except Exception as e:
+        part.fail("facet-lists-raise:%s" % key, "reading wulff_facets raised %r" % e, case)
     lib_v = halfspace.dedupe(V, 1e-6 * scale)
     # set equality with the reference
     def subset(X, Y):
